@@ -1,16 +1,25 @@
 /* Proof units for C02: the real source/hash_table.c under the spec of contracts/hash_table.h.
- * Every h_* harness is one inductive step on an ARBITRARY table of HT_NS slots satisfying ht_inv (bounded: HT_NS). */
+ *
+ * Every h_* harness is ONE INDUCTIVE STEP: an ARBITRARY table of HT_NS slots that satisfies ht_inv (not only reachable
+ * ones), arbitrary key identities / hash function / destructor configuration / stored pointers -> the real operation
+ * -> ht_inv again + the reference-map view changes exactly as stated.  BOUNDED by HT_NS (4; 2 for the 2->4 resize).
+ *
+ * Compile-time switches (set per unit in units.json):
+ *   HT_NS          slots of the pre-state table
+ *   HT_NO_ALLOC    the step must not allocate/release: aws_mem_calloc/aws_mem_release are "never reached" obligations
+ *                  (units without it link the real source/allocator.c over a calloc/free allocator)
+ *   HT_GROW        0: only steps that do not resize   1: only steps that resize
+ *   HT_PUT_CASE    0: put on a present key            1: put on an absent key
+ *   HT_FOREACH_CASE 0: foreach runs that are never stopped  1: runs stopped by the callback;  HT_FOREACH_MAX: max entries
+ */
 #include "contracts/hash_table.h"
 #include "source/hash_table.c"
 
 #ifdef HT_NO_ALLOC
-/* Units for steps that must not allocate or release (everything except resize and clean-up): the allocator entry points
- * are obligations ("never reached") instead of the real source/allocator.c; the assume(0) only prunes the path after
- * the failed obligation. */
 void *aws_mem_calloc(struct aws_allocator *a, size_t n, size_t s) {
     (void)a; (void)n; (void)s;
     __CPROVER_assert(0, "no allocation in a step that does not resize");
-    __CPROVER_assume(0);
+    __CPROVER_assume(0); /* prunes the path AFTER the failed obligation only */
     return NULL;
 }
 void aws_mem_release(struct aws_allocator *a, void *p) {
@@ -20,10 +29,27 @@ void aws_mem_release(struct aws_allocator *a, void *p) {
 }
 #endif
 
+/* error channel (source/error.c is not part of C02): the thread-local "last error" slot as a ghost variable */
+void aws_raise_error_private(int err) {
+    g_last_error = err;
+    g_raise_count++;
+}
+int aws_last_error(void) {
+    return g_last_error;
+}
+
 #define CHECK(c, msg) __CPROVER_assert((c), msg)
 #define NO_DESTRUCTOR_CALLS() CHECK(g_dk_calls == 0 && g_dv_calls == 0, "no destructor is called")
+#define NO_ALLOCATOR_CALLS() CHECK(g_alloc_calls == 0 && g_release_calls == 0, "nothing allocated or released")
 
-/* ---------------------------------------------------------------- find */
+/* an arbitrary slot index (ghost witness for "every stored entry ...") */
+static size_t any_slot(void) {
+    size_t p = nondet_size_t();
+    __CPROVER_assume(p < HT_NS);
+    return p;
+}
+
+/* ---------------------------------------------------------------- find, entry count */
 void h_find(void) {
     ht_model_init();
     struct hash_table_state *st = ht_any_state(HT_NS);
@@ -40,6 +66,10 @@ void h_find(void) {
     CHECK(idx == HT_NONE ? el == NULL : el == &st->slots[idx].element, "find: returns the stored element iff the reference map holds the key");
     CHECK(map.p_impl == st && ht_same(st, HT_NS, &snap), "find: table unchanged");
     NO_DESTRUCTOR_CALLS();
+    size_t occ = 0;
+    for (size_t i = 0; i < HT_NS; i++)
+        if (st->slots[i].hash_code) occ++;
+    CHECK(aws_hash_table_get_entry_count(&map) == occ, "get_entry_count: reports the number of stored pairs");
     if (idx == HT_NONE) {
         if (st->entry_count == HT_NS - 1) CANARY("find: absent, table at maximal load");
         else CANARY("find: absent");
@@ -50,15 +80,16 @@ void h_find(void) {
         else CANARY("find: found displaced");
         if (key == NULL) CANARY("find: NULL key found");
         if (key != NULL && st->slots[idx].element.key != key) CANARY("find: found through an equal but distinct key pointer");
+        if (key != NULL && vk_hash_of_id[((const struct vkey *)key)->id] == 0) CANARY("find: found a key whose hash function value is 0");
     }
 }
 
-/* post-state helpers: after create/put the table has HT_NS or 2*HT_NS slots; dispatch to constant-bound spec loops */
+/* ---------------------------------------------------------------- insertion (create / put on an absent key) */
+/* post-state has HT_NS or 2*HT_NS slots: dispatch to the constant-bound spec loops */
 #define INV_EITHER(s) ((s)->size == HT_NS ? ht_inv((s), HT_NS) : ht_inv((s), 2 * HT_NS))
 #define FIND_EITHER(s, k) ((s)->size == HT_NS ? sp_find((s), HT_NS, (k)) : sp_find((s), 2 * HT_NS, (k)))
-#define VIEW_EITHER(s, k) ((s)->size == HT_NS ? sp_view((s), HT_NS, (k)) : sp_view((s), 2 * HT_NS, (k)))
+#define HOLDS_EITHER(s, e) ((s)->size == HT_NS ? sp_holds((s), HT_NS, (e)) : sp_holds((s), 2 * HT_NS, (e)))
 
-/* HT_GROW: 0 = only steps that do not resize, 1 = only steps that resize, undefined = both */
 #if defined(HT_GROW) && HT_GROW == 0
 #    define GROW_CASE(st) __CPROVER_assume((st)->entry_count + 1 <= (st)->max_load)
 #elif defined(HT_GROW) && HT_GROW == 1
@@ -67,38 +98,34 @@ void h_find(void) {
 #    define GROW_CASE(st) (void)0
 #endif
 
-/* shared post-condition of create/put when the key was absent: one entry more, table possibly resized (old block
- * released exactly once), every other pair kept */
-static void check_inserted(
-    struct aws_hash_table *map, struct hash_table_state *st, const struct ht_snap *snap, const void *key,
-    const void *gk, struct ht_view g0) {
+/* one entry more, table resized exactly when the load limit demands it (old block released once), every stored
+ * entry (witness: arbitrary slot p of the pre-state) still stored */
+static void check_inserted(struct aws_hash_table *map, struct hash_table_state *st, const struct ht_snap *snap, size_t p) {
     struct hash_table_state *s1 = map->p_impl;
     bool grow = snap->hdr.entry_count + 1 > snap->hdr.max_load;
     if (!grow) {
         CHECK(s1 == st && s1->size == HT_NS && s1->max_load == snap->hdr.max_load, "insert: no resize while the load limit allows one more entry");
-        CHECK(g_release_calls == 0, "insert: nothing released without resize");
+        CHECK(g_alloc_calls == 0 && g_release_calls == 0, "insert: nothing allocated or released without resize");
     } else {
         CHECK(s1 != st && s1->size == 2 * HT_NS, "insert: table doubled when the load limit is reached");
-        CHECK(g_release_calls == 1 && g_release_last == st, "insert: old slot array released exactly once");
+        CHECK(g_alloc_calls == 1 && g_release_calls == 1 && g_release_last == st, "insert: one allocation, old slot array released exactly once");
     }
     CHECK(INV_EITHER(s1), "insert: representation invariant holds afterwards");
     CHECK(s1->entry_count == snap->hdr.entry_count + 1, "insert: count incremented");
     CHECK(s1->destroy_key_fn == snap->hdr.destroy_key_fn && s1->destroy_value_fn == snap->hdr.destroy_value_fn, "insert: destructor configuration kept");
-    if (!sp_keq(gk, key)) CHECK(sp_view_eq(VIEW_EITHER(s1, gk), g0), "insert: every other key keeps its presence, key pointer and value");
+    if (snap->slots[p].hash_code) CHECK(HOLDS_EITHER(s1, snap->slots[p]), "insert: every stored entry is still stored (same key pointer, same value)");
 }
 
-/* ---------------------------------------------------------------- create */
 void h_create(void) {
     ht_model_init();
     struct hash_table_state *st = ht_any_state(HT_NS);
     struct aws_hash_table map = {st};
     const void *key = ht_any_key();
-    const void *gk = ht_any_key();
+    size_t p = any_slot();
     GROW_CASE(st);
     struct ht_snap snap;
     ht_snapshot(st, HT_NS, &snap);
     size_t idx = sp_find(st, HT_NS, key);
-    struct ht_view g0 = sp_view(st, HT_NS, gk);
     bool want_elem = nondet_bool(), want_created = nondet_bool();
     struct aws_hash_element *el = (struct aws_hash_element *)&vk_alloc;
     int created = 77;
@@ -112,10 +139,10 @@ void h_create(void) {
         CHECK(s1 == st && ht_same(st, HT_NS, &snap), "create: existing key leaves the table unchanged");
         CHECK(!want_elem || el == &st->slots[idx].element, "create: existing key returns the stored element");
         CHECK(!want_created || created == 0, "create: was_created == 0 for an existing key");
-        CHECK(g_release_calls == 0, "create: nothing released");
+        NO_ALLOCATOR_CALLS();
         CANARY("create: key existed");
     } else {
-        check_inserted(&map, st, &snap, key, gk, g0);
+        check_inserted(&map, st, &snap, p);
         size_t i1 = FIND_EITHER(s1, key);
         CHECK(i1 != HT_NONE && s1->slots[i1].element.key == key && s1->slots[i1].element.value == NULL, "create: new entry holds the key pointer and a NULL value");
         CHECK(!want_elem || (i1 != HT_NONE && el == &s1->slots[i1].element), "create: returns the new element");
@@ -124,6 +151,7 @@ void h_create(void) {
         if (s1 == st) {
             if (i1 != HT_NONE && sp_disp(s1, HT_NS, i1) > 0) CANARY("create: new entry displaced");
             else CANARY("create: new entry at home");
+            if (i1 != HT_NONE && snap.slots[i1].hash_code != 0) CANARY("create: new entry took the slot of a richer entry (Robin Hood swap)");
         }
 #endif
 #if !defined(HT_GROW) || HT_GROW == 1
@@ -132,25 +160,22 @@ void h_create(void) {
     }
 }
 
-/* ---------------------------------------------------------------- put */
 void h_put(void) {
     ht_model_init();
     struct hash_table_state *st = ht_any_state(HT_NS);
     struct aws_hash_table map = {st};
     const void *key = ht_any_key();
     void *value = ht_any_value();
-    const void *gk = ht_any_key();
+    size_t p = any_slot();
     GROW_CASE(st);
     struct ht_snap snap;
     ht_snapshot(st, HT_NS, &snap);
     size_t idx = sp_find(st, HT_NS, key);
-#if defined(HT_PUT_CASE) && HT_PUT_CASE == 0 /* overwrite only */
+#if defined(HT_PUT_CASE) && HT_PUT_CASE == 0
     __CPROVER_assume(idx != HT_NONE);
-#elif defined(HT_PUT_CASE) && HT_PUT_CASE == 1 /* insert only */
+#elif defined(HT_PUT_CASE) && HT_PUT_CASE == 1
     __CPROVER_assume(idx == HT_NONE);
 #endif
-    struct ht_view k0 = sp_view(st, HT_NS, key);
-    struct ht_view g0 = sp_view(st, HT_NS, gk);
     bool want_created = nondet_bool();
     int created = 77;
 
@@ -158,79 +183,40 @@ void h_put(void) {
 
     struct hash_table_state *s1 = map.p_impl;
     CHECK(rv == AWS_OP_SUCCESS, "put: succeeds");
-    struct ht_view k1 = VIEW_EITHER(s1, key);
-    CHECK(k1.present && k1.key == key && k1.value == value, "put: the key now maps to the new value, stored under the new key pointer");
+    size_t i1 = FIND_EITHER(s1, key);
+    CHECK(i1 != HT_NONE && s1->slots[i1].element.key == key && s1->slots[i1].element.value == value, "put: the key now maps to the new value, stored under the new key pointer");
 #if !defined(HT_PUT_CASE) || HT_PUT_CASE == 0
     if (idx != HT_NONE) {
         CHECK(s1 == st && ht_inv(st, HT_NS) && ht_hdr_same(st, &snap) && st->entry_count == snap.hdr.entry_count, "put: overwrite keeps shape and count");
+        CHECK(i1 == idx && st->slots[idx].hash_code == snap.slots[idx].hash_code, "put: overwrite happens in place");
+        if (p != idx)
+            CHECK(st->slots[p].hash_code == snap.slots[p].hash_code && st->slots[p].element.key == snap.slots[p].element.key &&
+                      st->slots[p].element.value == snap.slots[p].element.value, "put: overwrite leaves every other slot unchanged");
         CHECK(!want_created || created == 0, "put: was_created == 0 on overwrite");
-        CHECK(g_release_calls == 0, "put: nothing released");
-        if (!sp_keq(gk, key)) CHECK(sp_view_eq(sp_view(st, HT_NS, gk), g0), "put: every other key keeps its presence, key pointer and value");
+        NO_ALLOCATOR_CALLS();
         /* destructors: old key exactly once iff it is a different pointer, old value exactly once */
-        bool dk = snap.hdr.destroy_key_fn != NULL && k0.key != key;
-        CHECK(g_dk_calls == (dk ? 1 : 0) && (!dk || g_dk_last == k0.key), "put: overwritten key destroyed exactly once, only if it is another pointer");
+        bool dk = snap.hdr.destroy_key_fn != NULL && snap.slots[idx].element.key != key;
+        CHECK(g_dk_calls == (dk ? 1 : 0) && (!dk || g_dk_last == snap.slots[idx].element.key), "put: overwritten key destroyed exactly once, and only if it is another pointer");
         bool dv = snap.hdr.destroy_value_fn != NULL;
-        CHECK(g_dv_calls == (dv ? 1 : 0) && (!dv || g_dv_last == k0.value), "put: overwritten value destroyed exactly once");
+        CHECK(g_dv_calls == (dv ? 1 : 0) && (!dv || g_dv_last == snap.slots[idx].element.value), "put: overwritten value destroyed exactly once");
         if (dk) CANARY("put: overwrite, old key destroyed");
-        else CANARY("put: overwrite, key kept");
+        else if (snap.hdr.destroy_key_fn) CANARY("put: overwrite with the same key pointer, key kept");
+        else CANARY("put: overwrite, no key destructor");
     }
 #endif
 #if !defined(HT_PUT_CASE) || HT_PUT_CASE == 1
     if (idx == HT_NONE) {
-        check_inserted(&map, st, &snap, key, gk, g0);
+        check_inserted(&map, st, &snap, p);
         CHECK(!want_created || created == 1, "put: was_created == 1 for a new key");
         NO_DESTRUCTOR_CALLS();
-#if !defined(HT_GROW) || HT_GROW == 0
+#    if !defined(HT_GROW) || HT_GROW == 0
         if (s1 == st) CANARY("put: inserted");
-#endif
-#if !defined(HT_GROW) || HT_GROW == 1
+#    endif
+#    if !defined(HT_GROW) || HT_GROW == 1
         if (s1 != st) CANARY("put: inserted with resize");
-#endif
+#    endif
     }
 #endif
-}
-
-/* ---------------------------------------------------------------- remove */
-void h_remove(void) {
-    ht_model_init();
-    struct hash_table_state *st = ht_any_state(HT_NS);
-    struct aws_hash_table map = {st};
-    const void *key = ht_any_key();
-    const void *gk = ht_any_key();
-    struct ht_snap snap;
-    ht_snapshot(st, HT_NS, &snap);
-    struct ht_view k0 = sp_view(st, HT_NS, key);
-    struct ht_view g0 = sp_view(st, HT_NS, gk);
-    bool want_value = nondet_bool(), want_present = nondet_bool();
-    struct aws_hash_element out = {&vk_alloc, &vk_alloc};
-    int present = 77;
-
-    int rv = aws_hash_table_remove(&map, key, want_value ? &out : NULL, want_present ? &present : NULL);
-
-    CHECK(rv == AWS_OP_SUCCESS, "remove: succeeds");
-    CHECK(map.p_impl == st && ht_hdr_same(st, &snap), "remove: same slot array, header kept");
-    CHECK(!want_present || present == (k0.present ? 1 : 0), "remove: was_present reports the reference map");
-    if (!k0.present) {
-        CHECK(ht_same(st, HT_NS, &snap), "remove: absent key leaves the table unchanged");
-        NO_DESTRUCTOR_CALLS();
-        CANARY("remove: key absent");
-    } else {
-        CHECK(ht_inv(st, HT_NS), "remove: representation invariant holds afterwards");
-        CHECK(st->entry_count == snap.hdr.entry_count - 1, "remove: count decremented");
-        CHECK(sp_find(st, HT_NS, key) == HT_NONE, "remove: key no longer present");
-        if (!sp_keq(gk, key)) CHECK(sp_view_eq(sp_view(st, HT_NS, gk), g0), "remove: every other key keeps its presence, key pointer and value");
-        if (want_value) {
-            CHECK(out.key == k0.key && out.value == k0.value, "remove: out-parameter receives the stored pair");
-            NO_DESTRUCTOR_CALLS();
-            CANARY("remove: removed into out-parameter");
-        } else {
-            bool dk = snap.hdr.destroy_key_fn != NULL, dv = snap.hdr.destroy_value_fn != NULL;
-            CHECK(g_dk_calls == (dk ? 1 : 0) && (!dk || g_dk_last == k0.key), "remove: key destroyed exactly once");
-            CHECK(g_dv_calls == (dv ? 1 : 0) && (!dv || g_dv_last == k0.value), "remove: value destroyed exactly once");
-            if (dk && dv) CANARY("remove: removed, both destructors ran");
-            else CANARY("remove: removed");
-        }
-    }
 }
 
 /* ---------------------------------------------------------------- resize (s_expand_table), HT_NS -> 2*HT_NS */
@@ -239,65 +225,107 @@ void h_expand(void) {
     ht_model_init();
     struct hash_table_state *st = ht_any_state(HT_NS);
     struct aws_hash_table map = {st};
-    const void *gk = ht_any_key();
+    size_t p = any_slot();
     struct ht_snap snap;
     ht_snapshot(st, HT_NS, &snap);
-    struct ht_view g0 = sp_view(st, HT_NS, gk);
 
     int rv = s_expand_table(&map);
 
     struct hash_table_state *s1 = map.p_impl;
     CHECK(rv == AWS_OP_SUCCESS, "expand: succeeds");
-    CHECK(s1 != st && g_release_calls == 1 && g_release_last == st, "expand: new slot array, old one released exactly once");
+    CHECK(s1 != st && g_alloc_calls == 1 && g_release_calls == 1 && g_release_last == st, "expand: new slot array, old one released exactly once");
     CHECK(ht_inv(s1, 2 * HT_NS), "expand: representation invariant holds for the doubled table");
     CHECK(s1->entry_count == snap.hdr.entry_count, "expand: count kept");
     CHECK(s1->entry_count + 1 <= s1->max_load, "expand: the doubled table takes one more entry without resizing again");
     CHECK(s1->destroy_key_fn == snap.hdr.destroy_key_fn && s1->destroy_value_fn == snap.hdr.destroy_value_fn, "expand: destructor configuration kept");
-    CHECK(sp_view_eq(sp_view(s1, 2 * HT_NS, gk), g0), "expand: every key keeps its presence, key pointer and value");
+    if (snap.slots[p].hash_code) CHECK(sp_holds(s1, 2 * HT_NS, snap.slots[p]), "expand: every stored entry is still stored (same key pointer, same value)");
     NO_DESTRUCTOR_CALLS();
     if (snap.hdr.entry_count == HT_NS - 1) CANARY("expand: full table rehashed");
     else CANARY("expand: rehashed");
 }
 #endif
 
-/* ---------------------------------------------------------------- remove_element */
+/* ---------------------------------------------------------------- remove / remove_element */
+/* shared post-condition: one entry fewer, that key gone, every other stored entry still stored */
+static void check_removed(struct hash_table_state *st, const struct ht_snap *snap, size_t idx, size_t p) {
+    CHECK(ht_inv(st, HT_NS), "removal: representation invariant holds afterwards");
+    CHECK(st->entry_count == snap->hdr.entry_count - 1, "removal: count decremented");
+    CHECK(sp_find(st, HT_NS, snap->slots[idx].element.key) == HT_NONE, "removal: key no longer present");
+    if (p != idx && snap->slots[p].hash_code) CHECK(sp_holds(st, HT_NS, snap->slots[p]), "removal: every other stored entry is still stored (same key pointer, same value)");
+}
+
+void h_remove(void) {
+    ht_model_init();
+    struct hash_table_state *st = ht_any_state(HT_NS);
+    struct aws_hash_table map = {st};
+    const void *key = ht_any_key();
+    size_t p = any_slot();
+    struct ht_snap snap;
+    ht_snapshot(st, HT_NS, &snap);
+    size_t idx = sp_find(st, HT_NS, key);
+    bool want_value = nondet_bool(), want_present = nondet_bool();
+    struct aws_hash_element out = {&vk_alloc, &vk_alloc};
+    int present = 77;
+
+    int rv = aws_hash_table_remove(&map, key, want_value ? &out : NULL, want_present ? &present : NULL);
+
+    CHECK(rv == AWS_OP_SUCCESS, "remove: succeeds");
+    CHECK(map.p_impl == st && ht_hdr_same(st, &snap), "remove: same slot array, header kept");
+    CHECK(!want_present || present == (idx != HT_NONE ? 1 : 0), "remove: was_present reports the reference map");
+    NO_ALLOCATOR_CALLS();
+    if (idx == HT_NONE) {
+        CHECK(ht_same(st, HT_NS, &snap), "remove: absent key leaves the table unchanged");
+        NO_DESTRUCTOR_CALLS();
+        CANARY("remove: key absent");
+    } else {
+        check_removed(st, &snap, idx, p);
+        if (want_value) {
+            CHECK(out.key == snap.slots[idx].element.key && out.value == snap.slots[idx].element.value, "remove: out-parameter receives the stored pair");
+            NO_DESTRUCTOR_CALLS();
+            CANARY("remove: removed into out-parameter");
+        } else {
+            bool dk = snap.hdr.destroy_key_fn != NULL, dv = snap.hdr.destroy_value_fn != NULL;
+            CHECK(g_dk_calls == (dk ? 1 : 0) && (!dk || g_dk_last == snap.slots[idx].element.key), "remove: stored key destroyed exactly once");
+            CHECK(g_dv_calls == (dv ? 1 : 0) && (!dv || g_dv_last == snap.slots[idx].element.value), "remove: stored value destroyed exactly once");
+            if (dk && dv) CANARY("remove: removed, both destructors ran");
+            else CANARY("remove: removed");
+        }
+        if (st->slots[idx].hash_code != 0) CANARY("remove: successor shifted back into the freed slot");
+    }
+}
+
 void h_remove_element(void) {
     ht_model_init();
     struct hash_table_state *st = ht_any_state(HT_NS);
     struct aws_hash_table map = {st};
-    size_t i = nondet_size_t();
-    __CPROVER_assume(i < HT_NS && st->slots[i].hash_code != 0);
-    const void *key = st->slots[i].element.key;
-    const void *gk = ht_any_key();
+    size_t idx = any_slot();
+    __CPROVER_assume(st->slots[idx].hash_code != 0);
+    size_t p = any_slot();
     struct ht_snap snap;
     ht_snapshot(st, HT_NS, &snap);
-    struct ht_view g0 = sp_view(st, HT_NS, gk);
 
-    int rv = aws_hash_table_remove_element(&map, &st->slots[i].element);
+    int rv = aws_hash_table_remove_element(&map, &st->slots[idx].element);
 
     CHECK(rv == AWS_OP_SUCCESS, "remove_element: succeeds");
     CHECK(map.p_impl == st && ht_hdr_same(st, &snap), "remove_element: same slot array, header kept");
-    CHECK(ht_inv(st, HT_NS), "remove_element: representation invariant holds afterwards");
-    CHECK(st->entry_count == snap.hdr.entry_count - 1, "remove_element: count decremented");
-    CHECK(sp_find(st, HT_NS, key) == HT_NONE, "remove_element: the element's key is no longer present");
-    if (!sp_keq(gk, key)) CHECK(sp_view_eq(sp_view(st, HT_NS, gk), g0), "remove_element: every other key keeps its presence, key pointer and value");
+    check_removed(st, &snap, idx, p);
     NO_DESTRUCTOR_CALLS();
-    if (i == HT_NS - 1 && st->slots[i].hash_code != 0) CANARY("remove_element: last slot refilled by backward shift across the wrap-around");
+    NO_ALLOCATOR_CALLS();
+    if (idx == HT_NS - 1 && st->slots[idx].hash_code != 0) CANARY("remove_element: last slot refilled by backward shift across the wrap-around");
     else CANARY("remove_element: removed");
 }
 
 /* ---------------------------------------------------------------- clear / clean_up */
-static void clear_pre(struct hash_table_state *st, const void *gk, struct ht_view *g0, void **wv, size_t *n_wv) {
-    *g0 = sp_view(st, HT_NS, gk);
-    if (g0->present) g_dk_watch = g0->key; /* watch the ghost key's stored pointer */
-    *wv = ht_any_value();                  /* and an arbitrary value pointer (may be stored in several entries) */
-    g_dv_watch = *wv;
-    *n_wv = sp_count_value(st, HT_NS, *wv);
+/* watch the key pointer stored in slot p (if any) and an arbitrary value pointer (may be held by several entries) */
+static void clear_pre(struct hash_table_state *st, size_t p, size_t *n_wv) {
+    if (st->slots[p].hash_code) g_dk_watch = st->slots[p].element.key;
+    g_dv_watch = ht_any_value();
+    *n_wv = sp_count_value(st, HT_NS, g_dv_watch);
 }
-static void clear_post_destructors(const struct ht_snap *snap, struct ht_view g0, size_t n_wv) {
+static void clear_post_destructors(const struct ht_snap *snap, size_t p, size_t n_wv) {
     bool dk = snap->hdr.destroy_key_fn != NULL, dv = snap->hdr.destroy_value_fn != NULL;
     CHECK(g_dk_calls == (dk ? snap->hdr.entry_count : 0), "clear: key destructor runs once per stored entry (never without one)");
-    CHECK(g_dk_hits == (dk && g0.present ? 1 : 0), "clear: every stored key pointer destroyed exactly once");
+    CHECK(g_dk_hits == (dk && snap->slots[p].hash_code ? 1 : 0), "clear: every stored key pointer destroyed exactly once");
     CHECK(g_dv_calls == (dv ? snap->hdr.entry_count : 0), "clear: value destructor runs once per stored entry (never without one)");
     CHECK(g_dv_hits == (dv ? n_wv : 0), "clear: every value pointer destroyed once per entry holding it");
 }
@@ -305,20 +333,19 @@ void h_clear(void) {
     ht_model_init();
     struct hash_table_state *st = ht_any_state(HT_NS);
     struct aws_hash_table map = {st};
-    const void *gk = ht_any_key();
+    size_t p = any_slot();
     struct ht_snap snap;
     ht_snapshot(st, HT_NS, &snap);
-    struct ht_view g0;
-    void *wv;
     size_t n_wv;
-    clear_pre(st, gk, &g0, &wv, &n_wv);
+    clear_pre(st, p, &n_wv);
 
     aws_hash_table_clear(&map);
 
     CHECK(map.p_impl == st && ht_hdr_same(st, &snap), "clear: same slot array, header kept");
     CHECK(ht_inv(st, HT_NS) && st->entry_count == 0, "clear: empty table satisfying the invariant");
-    CHECK(sp_find(st, HT_NS, gk) == HT_NONE, "clear: no key present");
-    clear_post_destructors(&snap, g0, n_wv);
+    CHECK(st->slots[p].hash_code == 0, "clear: every slot empty");
+    clear_post_destructors(&snap, p, n_wv);
+    NO_ALLOCATOR_CALLS();
     if (snap.hdr.entry_count == HT_NS - 1 && snap.hdr.destroy_key_fn && snap.hdr.destroy_value_fn) CANARY("clear: full table, both destructors");
     else if (snap.hdr.entry_count > 0 && !snap.hdr.destroy_key_fn && !snap.hdr.destroy_value_fn) CANARY("clear: no destructors");
     else CANARY("clear: other");
@@ -329,24 +356,22 @@ void h_clean_up(void) {
     ht_model_init();
     struct hash_table_state *st = ht_any_state(HT_NS);
     struct aws_hash_table map = {st};
-    const void *gk = ht_any_key();
+    size_t p = any_slot();
     struct ht_snap snap;
     ht_snapshot(st, HT_NS, &snap);
-    struct ht_view g0;
-    void *wv;
     size_t n_wv;
-    clear_pre(st, gk, &g0, &wv, &n_wv);
+    clear_pre(st, p, &n_wv);
 
     aws_hash_table_clean_up(&map);
 
     CHECK(map.p_impl == NULL, "clean_up: p_impl reset");
-    CHECK(g_release_calls == 1 && g_release_last == st, "clean_up: slot array released exactly once");
-    clear_post_destructors(&snap, g0, n_wv);
+    CHECK(g_release_calls == 1 && g_release_last == st && g_alloc_calls == 0, "clean_up: slot array released exactly once");
+    clear_post_destructors(&snap, p, n_wv);
     CANARY("clean_up: cleaned");
 
-    aws_hash_table_clean_up(&map); /* idempotent */
-    CHECK(map.p_impl == NULL && g_release_calls == 1, "clean_up: second call does nothing");
-    clear_post_destructors(&snap, g0, n_wv);
+    aws_hash_table_clean_up(&map); /* documented as idempotent */
+    CHECK(map.p_impl == NULL && g_release_calls == 1, "clean_up: second call releases nothing");
+    clear_post_destructors(&snap, p, n_wv);
     CANARY("clean_up: second call returned");
 }
 #endif
@@ -358,13 +383,12 @@ void h_iter_begin(void) {
     struct aws_hash_table map = {st};
     struct ht_snap snap;
     ht_snapshot(st, HT_NS, &snap);
-    size_t p = nondet_size_t(); /* an arbitrary stored entry */
-    __CPROVER_assume(p < HT_NS);
+    size_t p = any_slot();
 
     struct aws_hash_iter it = aws_hash_iter_begin(&map);
 
     CHECK(map.p_impl == st && ht_same(st, HT_NS, &snap), "iter_begin: table unchanged");
-    CHECK(it_inv(&it, &map, HT_NS), "iter_begin: iterator invariant established");
+    CHECK(it_inv(&it, &map, HT_NS), "iter_begin: iterator invariant established (current element is a copy of its slot)");
     CHECK(it.limit == HT_NS, "iter_begin: window is the whole slot array");
     CHECK(it.status != AWS_HASH_ITER_STATUS_DELETE_CALLED, "iter_begin: status is READY or DONE");
     if (st->slots[p].hash_code) CHECK(it_class_of(&it, p) != IT_VISITED, "iter_begin: no stored entry counts as visited");
@@ -403,8 +427,8 @@ void h_iter_next(void) {
     struct aws_hash_iter it = any_iter(&map);
     struct ht_snap snap;
     ht_snapshot(st, HT_NS, &snap);
-    size_t p = nondet_size_t(); /* an arbitrary stored entry */
-    __CPROVER_assume(p < HT_NS && st->slots[p].hash_code != 0);
+    size_t p = any_slot(); /* an arbitrary stored entry */
+    __CPROVER_assume(st->slots[p].hash_code != 0);
     enum it_class c0 = it_class_of(&it, p);
     enum aws_hash_iter_status s0 = it.status;
     size_t limit0 = it.limit;
@@ -412,7 +436,7 @@ void h_iter_next(void) {
     aws_hash_iter_next(&it);
 
     CHECK(map.p_impl == st && ht_same(st, HT_NS, &snap), "iter_next: table unchanged");
-    CHECK(it_inv(&it, &map, HT_NS), "iter_next: iterator invariant kept");
+    CHECK(it_inv(&it, &map, HT_NS), "iter_next: iterator invariant kept (current element is a copy of its slot)");
     CHECK(it.limit == limit0, "iter_next: window limit kept");
     CHECK(it.status != AWS_HASH_ITER_STATUS_DELETE_CALLED, "iter_next: status is READY or DONE");
     enum it_class c1 = it_class_of(&it, p);
@@ -440,35 +464,32 @@ void h_iter_delete(void) {
     bool destroy = nondet_bool();
     struct ht_snap snap;
     ht_snapshot(st, HT_NS, &snap);
-    struct aws_hash_element cur = it.element;
     size_t slot0 = it.slot, limit0 = it.limit;
-    size_t p = nondet_size_t(); /* an arbitrary OTHER stored entry */
-    __CPROVER_assume(p < HT_NS && p != it.slot && st->slots[p].hash_code != 0);
-    struct aws_hash_element ge = st->slots[p].element;
+    size_t p = any_slot(); /* an arbitrary OTHER stored entry */
+    __CPROVER_assume(p != it.slot && st->slots[p].hash_code != 0);
     enum it_class c0 = it_class_of(&it, p);
 
     aws_hash_iter_delete(&it, destroy);
 
     CHECK(map.p_impl == st && ht_hdr_same(st, &snap), "iter_delete: same slot array, header kept");
-    CHECK(ht_inv(st, HT_NS), "iter_delete: representation invariant holds afterwards");
-    CHECK(st->entry_count == snap.hdr.entry_count - 1, "iter_delete: count decremented");
-    CHECK(sp_find(st, HT_NS, cur.key) == HT_NONE, "iter_delete: the current entry is gone");
+    check_removed(st, &snap, slot0, p);
     CHECK(it.status == AWS_HASH_ITER_STATUS_DELETE_CALLED && it_inv(&it, &map, HT_NS), "iter_delete: iterator invariant kept, status DELETE_CALLED");
-    size_t p1 = sp_find(st, HT_NS, ge.key);
-    CHECK(p1 != HT_NONE && st->slots[p1].element.key == ge.key && st->slots[p1].element.value == ge.value, "iter_delete: every other entry kept");
+    size_t p1 = sp_find(st, HT_NS, snap.slots[p].element.key);
+    CHECK(p1 != HT_NONE, "iter_delete: every other key still found");
     if (p1 != HT_NONE) {
         enum it_class c1 = it_class_of(&it, p1);
-        CHECK(c0 != IT_VISITED || c1 == IT_VISITED, "iter_delete: a visited entry stays visited (no double visit after backward shift / wrap)");
+        CHECK(c0 != IT_VISITED || c1 == IT_VISITED, "iter_delete: a visited entry stays visited (no second visit after backward shift / wrap-around)");
         CHECK(c0 != IT_PENDING || c1 == IT_PENDING, "iter_delete: a pending entry stays pending (no skipped entry after backward shift)");
     }
     if (destroy) {
         bool dk = snap.hdr.destroy_key_fn != NULL, dv = snap.hdr.destroy_value_fn != NULL;
-        CHECK(g_dk_calls == (dk ? 1 : 0) && (!dk || g_dk_last == cur.key), "iter_delete: key destroyed exactly once when requested");
-        CHECK(g_dv_calls == (dv ? 1 : 0) && (!dv || g_dv_last == cur.value), "iter_delete: value destroyed exactly once when requested");
+        CHECK(g_dk_calls == (dk ? 1 : 0) && (!dk || g_dk_last == snap.slots[slot0].element.key), "iter_delete: key destroyed exactly once when requested");
+        CHECK(g_dv_calls == (dv ? 1 : 0) && (!dv || g_dv_last == snap.slots[slot0].element.value), "iter_delete: value destroyed exactly once when requested");
         CANARY("iter_delete: with destruction");
     } else {
         NO_DESTRUCTOR_CALLS();
     }
+    NO_ALLOCATOR_CALLS();
     if (it.limit < limit0) {
         if (limit0 < HT_NS) CANARY("iter_delete: limit shrunk again");
         else CANARY("iter_delete: limit shrunk (visited entry shifted across the wrap-around)");
@@ -476,4 +497,156 @@ void h_iter_delete(void) {
     if (slot0 == 0) CANARY("iter_delete: slot 0 deleted (slot underflows)");
     if (c0 == IT_PENDING && p1 != HT_NONE && p1 != p) CANARY("iter_delete: pending entry shifted back");
     if (c0 == IT_VISITED && p1 != HT_NONE && p1 != p) CANARY("iter_delete: visited entry shifted back");
+}
+
+/* ---------------------------------------------------------------- foreach (whole run, callback decides per element) */
+const void *g_cb_watch;
+size_t g_cb_calls, g_cb_hits, g_cb_deletes;
+int g_cb_rv_watch;
+bool g_cb_stopped, g_cb_error, g_cb_after_stop;
+void *g_cb_ctx;
+static int foreach_cb(void *ctx, struct aws_hash_element *el) {
+    __CPROVER_assert(ctx == g_cb_ctx, "foreach: context handed through");
+    if (g_cb_stopped) g_cb_after_stop = true;
+    g_cb_calls++;
+    int rv = nondet_int();
+    __CPROVER_assume((rv & ~7) == 0);
+#if defined(HT_FOREACH_CASE) && HT_FOREACH_CASE == 0 /* full runs only: every callback asks to continue */
+    __CPROVER_assume((rv & AWS_COMMON_HASH_TABLE_ITER_CONTINUE) && !(rv & AWS_COMMON_HASH_TABLE_ITER_ERROR));
+#endif
+    if (el->key == g_cb_watch) {
+        g_cb_hits++;
+        g_cb_rv_watch = rv;
+    }
+    if (rv & AWS_COMMON_HASH_TABLE_ITER_ERROR) {
+        g_cb_error = true;
+        g_cb_stopped = true;
+    } else {
+        if (rv & AWS_COMMON_HASH_TABLE_ITER_DELETE) g_cb_deletes++;
+        if (!(rv & AWS_COMMON_HASH_TABLE_ITER_CONTINUE)) g_cb_stopped = true;
+    }
+    return rv;
+}
+void h_foreach(void) {
+    ht_model_init();
+    struct hash_table_state *st = ht_any_state(HT_NS);
+    struct aws_hash_table map = {st};
+    struct ht_snap snap;
+    ht_snapshot(st, HT_NS, &snap);
+    size_t p = any_slot(); /* an arbitrary stored entry */
+    __CPROVER_assume(st->slots[p].hash_code != 0);
+#ifdef HT_FOREACH_MAX /* quick tier: tables holding at most HT_FOREACH_MAX entries */
+    __CPROVER_assume(st->entry_count <= HT_FOREACH_MAX);
+#endif
+    g_cb_watch = st->slots[p].element.key;
+    g_cb_calls = g_cb_hits = g_cb_deletes = 0;
+    g_cb_rv_watch = 0;
+    g_cb_stopped = g_cb_error = g_cb_after_stop = false;
+    g_cb_ctx = ht_any_value();
+
+    g_last_error = nondet_bool() ? 0 : AWS_ERROR_OOM;
+    g_raise_count = 0;
+
+    int rv = aws_hash_table_foreach(&map, foreach_cb, g_cb_ctx);
+
+#if defined(HT_FOREACH_CASE) && HT_FOREACH_CASE == 1 /* only runs that are stopped by a callback */
+    __CPROVER_assume(g_cb_stopped);
+#endif
+
+    CHECK(map.p_impl == st && ht_hdr_same(st, &snap), "foreach: same slot array, header kept");
+    CHECK(ht_inv(st, HT_NS), "foreach: representation invariant holds afterwards");
+    CHECK(rv == (g_cb_error ? AWS_OP_ERR : AWS_OP_SUCCESS), "foreach: fails iff a callback reported an error");
+    CHECK(!g_cb_after_stop, "foreach: no callback after a callback asked to stop");
+    CHECK(st->entry_count == snap.hdr.entry_count - g_cb_deletes, "foreach: count reduced by the number of deletions requested");
+    CHECK(g_cb_hits <= 1, "foreach: no entry handed out twice");
+    bool deleted = g_cb_hits == 1 && (g_cb_rv_watch & AWS_COMMON_HASH_TABLE_ITER_DELETE) && !(g_cb_rv_watch & AWS_COMMON_HASH_TABLE_ITER_ERROR);
+    if (deleted) CHECK(sp_find(st, HT_NS, snap.slots[p].element.key) == HT_NONE, "foreach: an entry whose callback asked for deletion is gone");
+    else CHECK(sp_holds(st, HT_NS, snap.slots[p]), "foreach: every other entry is still stored");
+    CHECK(!g_cb_error || g_last_error != 0, "foreach: an error return leaves an error code behind");
+#if !defined(HT_FOREACH_CASE) || HT_FOREACH_CASE == 0
+    if (!g_cb_stopped) {
+        CHECK(g_cb_calls == snap.hdr.entry_count && g_cb_hits == 1, "foreach: a full run hands out every stored entry exactly once, also across deletions");
+        if (g_cb_deletes == snap.hdr.entry_count && g_cb_deletes > 1) CANARY("foreach: full run, every entry deleted");
+        else if (g_cb_deletes > 0) CANARY("foreach: full run with deletions");
+        else CANARY("foreach: full run");
+    }
+#endif
+#if !defined(HT_FOREACH_CASE) || HT_FOREACH_CASE == 1
+    if (g_cb_stopped) {
+        if (g_cb_error) CANARY("foreach: stopped by error");
+        else CANARY("foreach: stopped by callback");
+    }
+#endif
+    NO_DESTRUCTOR_CALLS();
+    NO_ALLOCATOR_CALLS();
+}
+
+/* ---------------------------------------------------------------- init (initial sizes) */
+#ifndef HT_NO_ALLOC
+void h_init(void) {
+    ht_model_init();
+    struct aws_hash_table map = {NULL};
+    size_t size = nondet_size_t();
+    __CPROVER_assume(size <= HT_ALLOC_SLOTS && (size > HT_ALLOC_SLOTS / 2 || HT_ALLOC_SLOTS == 2));
+    aws_hash_callback_destroy_fn *dk = nondet_bool() ? vk_destroy_key : NULL;
+    aws_hash_callback_destroy_fn *dv = nondet_bool() ? vk_destroy_value : NULL;
+
+    int rv = aws_hash_table_init(&map, &vk_alloc, size, vk_hash, vk_eq, dk, dv);
+
+    CHECK(rv == AWS_OP_SUCCESS, "init: succeeds");
+    struct hash_table_state *s1 = map.p_impl;
+    CHECK(s1 != NULL && g_alloc_calls == 1 && g_release_calls == 0, "init: one allocation (vk_calloc checks: exactly header + the smallest power of two >= max(size,2) slots)");
+    if (s1 != NULL) {
+        CHECK(ht_inv(s1, HT_ALLOC_SLOTS), "init: representation invariant established");
+        CHECK(s1->entry_count == 0 && s1->max_load >= 1, "init: empty, and the load limit admits at least one entry");
+        CHECK(s1->destroy_key_fn == dk && s1->destroy_value_fn == dv, "init: destructors stored as given");
+    }
+    NO_DESTRUCTOR_CALLS();
+#if HT_ALLOC_SLOTS == 2
+    if (size < 2) CANARY("init: size below the minimum of two slots");
+    else CANARY("init: size two");
+#else
+    if (size < HT_ALLOC_SLOTS) CANARY("init: size rounded up to a power of two");
+    else CANARY("init: size already a power of two");
+#endif
+}
+#endif
+
+/* all 2^64 requested sizes: slot count and load limit computed by s_update_template_size */
+void h_update_template_size(void) {
+    struct hash_table_state tmpl;
+    tmpl.max_load_factor = 0.95;
+    tmpl.size = nondet_size_t();
+    tmpl.mask = nondet_size_t();
+    tmpl.max_load = nondet_size_t();
+    size_t size0 = tmpl.size, mask0 = tmpl.mask, ml0 = tmpl.max_load;
+    size_t n = nondet_size_t();
+
+    int rv = s_update_template_size(&tmpl, n);
+
+    size_t want = n < 2 ? 2 : n;
+    if (want > ((size_t)1 << 63)) {
+        CHECK(rv == AWS_OP_ERR && tmpl.size == size0 && tmpl.mask == mask0 && tmpl.max_load == ml0, "template size: a request above 2^63 slots is refused and changes nothing");
+        CANARY("template size: refused");
+    } else {
+        CHECK(rv == AWS_OP_SUCCESS, "template size: succeeds");
+        CHECK(tmpl.size != 0 && (tmpl.size & (tmpl.size - 1)) == 0, "template size: slot count is a power of two");
+        CHECK(tmpl.size >= want && (tmpl.size >> 1) < want, "template size: the smallest power of two >= max(requested, 2)");
+        CHECK(tmpl.mask == tmpl.size - 1, "template size: mask == size - 1");
+        CHECK(tmpl.max_load < tmpl.size, "template size: load limit leaves at least one slot empty");
+        CHECK(tmpl.max_load >= tmpl.size / 2, "template size: load limit admits at least half of the slots");
+        if (tmpl.size == 2) CANARY("template size: minimum"); else CANARY("template size: computed");
+    }
+}
+
+/* ---------------------------------------------------------------- swap / move (DFCC contracts, unbounded) */
+void h_swap(void) {
+    struct aws_hash_table *a, *b;
+    aws_hash_table_swap(a, b);
+    CANARY("swap: returned");
+}
+void h_move(void) {
+    struct aws_hash_table *to, *from;
+    aws_hash_table_move(to, from);
+    CANARY("move: returned");
 }
